@@ -93,7 +93,7 @@ def handle1 (op : String) (args : List String) : Option (String × String) :=
     pure (optU (BigUint.toBiguint a), optU (some (ofNat (val a))))
   | "i.from_u", [a] => do
     let a ← parseLimbs a
-    pure (okI (BigInt.fromU a), oI (val a))
+    pure (okI (Core.BigInt.fromU a), oI (val a))
   | "u.zero", [] | "u.const_zero", [] => pure (okU BigUint.zero, oU 0)
   | "u.default", [] => pure (okU BigUint.default, oU 0)
   | "u.one", [] => pure (okU BigUint.one, oU 1)
@@ -108,7 +108,7 @@ def handle1 (op : String) (args : List String) : Option (String × String) :=
     pure (showBool (BigUint.isOne a), showBool (val a == 1))
   | "i.is_zero", [x] => do
     let x ← parseBigInt x
-    pure (showBool (BigInt.isZero x), showBool (x.val == 0))
+    pure (showBool (Core.BigInt.isZero x), showBool (x.val == 0))
   | "i.is_one", [x] => do
     let x ← parseBigInt x
     pure (showBool (BigInt.isOne x), showBool (x.val == 1))
